@@ -79,6 +79,13 @@ SameMiss(a, b)  == a.set = b.set /\ Rng(a.mr) = Rng(b.mr) /\ GrpSets(a.mg) = Grp
 SameVal(a, b)   == a.k = b.k /\ a.c = b.c /\ a.xs = b.xs /\ Rng(a.mr) = Rng(b.mr) /\ GrpSets(a.mg) = GrpSets(b.mg)
                    /\ Len(a.mr) = Len(b.mr) /\ Len(a.mg) = Len(b.mg)
 
+(* every observer whose type matches fired exactly once for this attempt and  *)
+(* saw the state after it; no other observer fired                            *)
+ObsOK(c, v) ==
+    /\ {Ev.obs[i].t : i \in DOMAIN Ev.obs} = ObserversFor(c)
+    /\ Len(Ev.obs) = Cardinality(ObserversFor(c))
+    /\ \A i \in DOMAIN Ev.obs : Ev.obs[i].has = (v.k # "absent")
+
 AttOK ==
     /\ AttGuard(Ev.w, Ev.c)
     /\ LET c == Ev.c
@@ -87,6 +94,7 @@ AttOK ==
           /\ SameMiss(IF e.m.set THEN e.m ELSE missing[c], Ev.m)      \* MissingExact
           /\ e.calls = Ev.calls                                       \* FiresIff / ArgBinding / OnlyGraphRuns
           /\ \A r \in Rng(Ev.recs) : RecAllowed(r, c)                 \* NothingElsewhere
+          /\ ObsOK(c, e.v)                                            \* ObserversExact
 
 EndOK(E) ==
     /\ AllDone
@@ -145,6 +153,10 @@ DiagAtt ==
               ELSE "NothingElsewhere:" \o Kind(c) \o ":" \o r.kind \o
                    (IF r.el > 0 THEN ":element" ELSE "") \o
                    (IF r.under \in Comp THEN ":under-" \o Kind(r.under) ELSE ":under-non-component"))
+         ELSE IF ~ObsOK(c, e.v) THEN
+             (IF Len(Ev.obs) > Cardinality(ObserversFor(c)) THEN "ObserversExact.fired-twice-or-foreign:" \o Kind(c)
+              ELSE IF {Ev.obs[i].t : i \in DOMAIN Ev.obs} # ObserversFor(c) THEN "ObserversExact.not-fired:" \o Kind(c)
+              ELSE "ObserversExact.fired-before-the-state-change:" \o Kind(c))
          ELSE "att.unknown"
 
 DiagEnd ==
